@@ -41,7 +41,7 @@ from z3 import And, Or, Not, If, Implies, Int, Ints, IntVal, BoolVal, Const, Con
 
 from pyvc.front import select, SelectorError, OutOfSubset, find_all, find
 from pyvc.symex import Exec, State, LoopSpec
-from pyvc.th_maps import (Maps, Val, Lst, Dct, Cls, LEN, AT, MEM, FST, MEMP, NODUP, DOM, GET, RK, NXT, CARD, V, PList, PDict, fresh_val,
+from pyvc.th_maps import (Maps, Val, Lst, Dct, Cls, LEN, AT, MEM, FST, NODUP, DOM, GET, RK, NXT, CARD, V, PList, PDict, fresh_val,
                           validate_axioms, pairs, CALLABLE, IS_STR)
 from pyvc.sv import SV, I, B, S, T, NONE, fresh_int, fresh_name
 
@@ -250,6 +250,7 @@ def dictattr_section(ctx, M, cls):
         def inv(st, entry):
             th, ex, self_ = box['th'], box['ex'], box['self']
             D = self_.pd
+            SEL = box['sel'].pl
             res = st.env['res']
             kk = st.ghost['sub.For1.k']
             for f in th.inst([K0, K1], [kk]):
@@ -259,7 +260,7 @@ def dictattr_section(ctx, M, cls):
             R = res.pd
             cl = [('class_kept', And(BoolVal(res.cls == cls and bool(res.f.get('own'))), res.tag == CLS))]
             for nm, x in (('K0', K0), ('K1', K1)):
-                cl.append(('keys_are_d_minus_prefix.' + nm, R.dom(x) == And(D.dom(x), Not(MEMP(ks, kk, x)))))
+                cl.append(('keys_are_d_minus_prefix.' + nm, R.dom(x) == And(D.dom(x), Not(SEL.memp(kk, x)))))
                 cl.append(('values_and_stamps_kept.' + nm, Implies(R.dom(x), And(R.get(x) == D.get(x), R.rk(x) == D.rk(x)))))
             return cl
         th, ex, self_ = setup('sub.list', loops={id(loop): LoopSpec('sub.For1', inv)})
@@ -267,6 +268,7 @@ def dictattr_section(ctx, M, cls):
         D = self_.pd
         key = resolve(th, '__sub__')
         sel = th.sym_list('ks', cls='list', elty='str')
+        box['sel'] = sel
         E = [K0, K1]
         outs, inst = run('sub.list', key, th, ex, self_, [sel], E=E)
         kw = dict(witness=wit(D, len_ks=LEN(ks), K0_in_ks=MEM(ks, K0), K1_in_ks=MEM(ks, K1)), replay=rp('dictattr', cls, 'sub.list'))
@@ -480,6 +482,244 @@ def dictattr_section(ctx, M, cls):
     ctx.guarded('%s.relabel' % cls, relabel_)
 
 
+# =============================================================================================== Dict.__call__
+ARGS = Function('getargs', Val, Lst)                 # getargs(f): uninterpreted list of parameter names;  dep(k, d) := d in getargs(v_k)
+APPLY = Function('Dict_apply', Val, Dct, Dct, Val)   # res.apply(f, **defaults) evaluated on a snapshot of res (assumed contract)
+SNAP = 'snapshot of res handed to apply when the key was evaluated'
+
+
+def call_section(ctx, M):
+    """Dict.__call__(self, **kwargs), executed from the real AST with
+
+      ghost t        number of completed rounds of While#0
+      ghost rnd(k)   round in which key k was assigned        ghost cnt(k)   number of assignments res[k] = ...
+      ghost snap(k)  the mapping handed to apply for k        ghost kws(k)   the default keywords handed to apply for k
+      Cal(k)  := k in kwargs and callable(kwargs[k])          dep(k, d) := d in getargs(kwargs[k])        R := keys of `callables`
+
+    While#0 invariant (pointwise at arbitrary keys K0, D0; the skolem witnesses of the cardinality tests are instantiated too):
+      R(k) => Cal(k) and callables[k] is kwargs[k];   Cal(k) and not R(k) => 0 <= rnd(k) < t, cnt(k) = 1;   R(k) => cnt(k) = 0;
+      Cal(k), not R(k), dep(k, d), Cal(d), d != k  =>  not R(d), rnd(d) < rnd(k), snap(k)[d] is res[d]          (dependency order)
+      res[k] = apply(kwargs[k], snap(k), key = k) for evaluated k; keys(res) = keys(d) + evaluated / plain keywords.
+    variant: len(callables) (a witness independent key leaves the mapping).  The two `for` loops (independent keys of a round,
+    the last remaining callable) carry the same facts relative to the state at their entry, over the processed prefix of the keys.
+    Taken by contract: res.apply(f, **{key: k}) (= kwargs_support(f)(**{**defaults, **res}); kwargs_support.wrapped is C18's subject),
+    getargs (uninterpreted), _postprocess is Dict's own (identity; a subclass overriding it is outside this contract)."""
+    mD = M['mD']
+    fdef = mD.func('Dict.__call__')
+    whiles = find_all(fdef, lambda n: isinstance(n, ast.While))
+    fors = find_all(fdef, lambda n: isinstance(n, ast.For))
+    if len(whiles) != 1 or len(fors) != 2:
+        raise SelectorError('Dict.__call__: expected one while and two for loops')
+    while0, for_in, for_last = whiles[0], fors[0], fors[1]
+    if for_in not in find_all(while0, lambda n: isinstance(n, ast.For)) or for_last in find_all(while0, lambda n: isinstance(n, ast.For)):
+        raise SelectorError('Dict.__call__: loop nesting changed')
+    comps = find_all(while0, lambda n: isinstance(n, ast.Assign) and isinstance(n.value, ast.DictComp))
+    if len(comps) != 2:
+        raise SelectorError('Dict.__call__: expected two dict comprehensions in the while body')
+    ind_assign, re_assign = comps
+    stores = find_all(fdef, lambda n: isinstance(n, ast.Assign) and isinstance(n.targets[0], ast.Subscript))
+    if len(stores) != 2:
+        raise SelectorError('Dict.__call__: expected two stores res[key] = ...')
+    ind_name = ind_assign.targets[0].id
+    cal_name = re_assign.targets[0].id
+    res_name = stores[0].targets[0].value.id
+
+    th = Maps(M['classes'])
+    CLS = Const('type_self', Cls)
+    K0, D0 = Consts('K0 D0', Val)
+    E = [K0, D0]
+    NAMED = (('K0', K0), ('D0', D0))
+    self_ = th.sym_dict('d', cls='Dict', tag=CLS, kty='str')
+    kw = th.sym_dict('kw', cls='dict', kty='str', own=True)
+    Dd, KWD = self_.pd, kw.pd
+    KEYSTR = th.strv('key')
+    th.elems.append(KEYSTR)
+    items_keys = {}
+
+    def Cal(x):
+        return And(KWD.dom(x), CALLABLE(KWD.get(x)))
+
+    def dep(x, y):
+        return MEM(ARGS(KWD.get(x)), y)
+
+    def getargs_contract(ex, st, args, kwargs, star=None, dstar=None):
+        ex.use('uninterpreted:getargs(f) is an uninterpreted list of parameter names (dep(k, d) := d in getargs(v_k))')
+        return th.mk_list(th.base_list(ARGS(th.to_val(ex, args[0]))))
+    th.contracts['getargs'] = getargs_contract
+
+    def bound_star(ex, st, fn, args, kwargs, star, dstar):
+        if fn.mname != 'apply' or fn.recv.kind != 'pdict' or dstar is None or len(args) != 1:
+            return NotImplemented
+        ex.use('assumed contract:Dict.apply(f, **defaults) is a function of f, the mapping at that moment and the defaults '
+               '(= kwargs_support(f)(**{**defaults, **self}); kwargs_support.wrapped is under contract in C18)')
+        Sn = th.reify_dict(fn.recv.pd, 'snap')
+        Kw = th.reify_dict(dstar.pd, 'defaults')
+        st.ghost['last_apply'] = (Sn.t, Kw.t)
+        return V(APPLY(th.to_val(ex, args[0]), Sn.t, Kw.t))
+    th.bound_star = bound_star
+
+    orig_iterate = th.iterate
+
+    def iterate(ex_, st, it):
+        r = orig_iterate(ex_, st, it)
+        if it.kind == 'items':
+            items_keys[id(it.of.pd)] = it.f['keys']
+        return r
+    th.iterate = iterate
+
+    def facts(ex, J=()):
+        for f in th.inst(E, J):
+            ex.fact(f)
+
+    # ---- ghost updates, addressed structurally
+    def after_store(ex, st, s):
+        k = th.to_val(ex, ex.eval(st, s.targets[0].slice))
+        sn, kws_ = st.ghost['last_apply']
+        t = st.ghost['t']
+        rnd0, cnt0, snap0, kws0 = st.ghost['rnd'], st.ghost['cnt'], st.ghost['snap'], st.ghost['kws']
+        st.ghost['rnd'] = lambda x: If(x == k, t, rnd0(x))
+        st.ghost['cnt'] = lambda x: If(x == k, cnt0(x) + 1, cnt0(x))
+        st.ghost['snap'] = lambda x: If(x == k, sn, snap0(x))
+        st.ghost['kws'] = lambda x: If(x == k, kws_, kws0(x))
+
+    def after_round(ex, st, s):
+        st.ghost['t'] = st.ghost['t'] + 1
+
+    def after_independent(ex, st, s):
+        facts(ex)
+        ind = st.env[ind_name].pd
+        for (nx, x), (ny, y) in ((NAMED[0], NAMED[1]), (NAMED[1], NAMED[0])):
+            ex.oblige(st, 'lemma.independent_keys_of_one_round_do_not_depend_on_each_other.%s_%s' % (nx, ny),
+                      Implies(And(ind.dom(x), ind.dom(y), x != y), Not(MEM(ARGS(ind.get(x)), y))), kind='lemma')
+    hooks = [(lambda s: s in stores, after_store), (lambda s: s is re_assign, after_round), (lambda s: s is ind_assign, after_independent)]
+
+    def havoc_all(ex, st):
+        st.ghost['t'] = fresh_int('t')
+        havoc_maps(ex, st)
+
+    def havoc_maps(ex, st):
+        rnd, cnt = Function(fresh_name('rnd'), Val, IntSort()), Function(fresh_name('cnt'), Val, IntSort())
+        snap, kws_ = Function(fresh_name('snap'), Val, Dct), Function(fresh_name('kws'), Val, Dct)
+        st.ghost['rnd'], st.ghost['cnt'] = (lambda x: rnd(x)), (lambda x: cnt(x))
+        st.ghost['snap'], st.ghost['kws'] = (lambda x: snap(x)), (lambda x: kws_(x))
+
+    def shape_ok(st):
+        C, R = st.env.get(cal_name), st.env.get(res_name)
+        return C is not None and R is not None and C.kind == 'pdict' and R.kind == 'pdict'
+
+    def evaluated_facts(C, R, g, x, strict_t=True):
+        """what holds of an evaluated callable key x in state (callables C, res R, ghosts g)"""
+        t = g['t']
+        return And(0 <= g['rnd'](x), (g['rnd'](x) < t) if strict_t else (g['rnd'](x) <= t), g['cnt'](x) == 1,
+                   R.get(x) == APPLY(KWD.get(x), g['snap'](x), g['kws'](x)), DOM(g['kws'](x), KEYSTR), GET(g['kws'](x), KEYSTR) == x)
+
+    def dependency_facts(C, R, g, x, y):
+        return And(Not(C.dom(y)), g['rnd'](y) < g['rnd'](x), DOM(g['snap'](x), y), GET(g['snap'](x), y) == R.get(y))
+
+    def outer_inv(st, entry):
+        facts(box['ex'])
+        if not shape_ok(st):
+            return [('callables_and_res_are_mappings', BoolVal(False))]
+        Cs, Rs = st.env[cal_name], st.env[res_name]
+        C, R, g = Cs.pd, Rs.pd, st.ghost
+        cl = [('round_counter_nonnegative', g['t'] >= 0),
+              ('res_is_a_copy_of_type_self', And(BoolVal(Rs.cls == 'Dict' and bool(Rs.f.get('own'))), Rs.tag == CLS))]
+        for nm, x in NAMED:
+            cl.append(('remaining_are_callable_keywords.' + nm, Implies(C.dom(x), And(Cal(x), C.get(x) == KWD.get(x)))))
+            cl.append(('remaining_not_yet_assigned.' + nm, Implies(C.dom(x), g['cnt'](x) == 0)))
+            cl.append(('evaluated_once_in_an_earlier_round.' + nm, Implies(And(Cal(x), Not(C.dom(x))), evaluated_facts(C, R, g, x))))
+            cl.append(('keys_of_res.' + nm, R.dom(x) == Or(Dd.dom(x), And(KWD.dom(x), Not(C.dom(x))))))
+            cl.append(('plain_values.' + nm, And(Implies(And(KWD.dom(x), Not(CALLABLE(KWD.get(x)))), R.get(x) == KWD.get(x)),
+                                                 Implies(And(Not(KWD.dom(x)), Dd.dom(x)), R.get(x) == Dd.get(x)))))
+        for (nx, x), (ny, y) in ((NAMED[0], NAMED[1]), (NAMED[1], NAMED[0])):
+            cl.append(('dependencies_evaluated_strictly_earlier.%s_%s' % (nx, ny),
+                       Implies(And(Cal(x), Not(C.dom(x)), dep(x, y), Cal(y), y != x), dependency_facts(C, R, g, x, y))))
+        return cl
+
+    def for_inv(loopname, over):
+        """invariant of `for key, value in <over>.items(): res[key] = ...` relative to the state at loop entry"""
+        def inv(st, entry):
+            ex = box['ex']
+            j = st.ghost[loopname + '.k']
+            kl = items_keys.get(id(entry.env[over].pd))
+            if kl is None or not shape_ok(st):
+                return [('iterates_the_items_of_%s' % over, BoolVal(False))]
+            facts(ex, [j])
+            P = lambda x: kl.memp(j, x)
+            R0, Rj, g0, g = entry.env[res_name].pd, st.env[res_name].pd, entry.ghost, st.ghost
+            Rs = st.env[res_name]
+            C = entry.env[cal_name].pd
+            cl = [('res_is_a_copy_of_type_self', And(BoolVal(Rs.cls == 'Dict' and bool(Rs.f.get('own'))), Rs.tag == CLS)),
+                  ('round_counter_unchanged', g['t'] == g0['t'])]
+            for nm, x in NAMED:
+                cl.append(('keys_of_res.' + nm, Rj.dom(x) == Or(R0.dom(x), P(x))))
+                cl.append(('unprocessed_keys_untouched.' + nm, Implies(Not(P(x)), And(Rj.get(x) == R0.get(x), g['rnd'](x) == g0['rnd'](x), g['cnt'](x) == g0['cnt'](x),
+                                                                                   g['snap'](x) == g0['snap'](x), g['kws'](x) == g0['kws'](x)))))
+                cl.append(('processed_keys_assigned_once_in_this_round.' + nm,
+                           Implies(P(x), And(g['rnd'](x) == g['t'], g['cnt'](x) == g0['cnt'](x) + 1, Rj.get(x) == APPLY(KWD.get(x), g['snap'](x), g['kws'](x)),
+                                             DOM(g['kws'](x), KEYSTR), GET(g['kws'](x), KEYSTR) == x))))
+            for (nx, x), (ny, y) in ((NAMED[0], NAMED[1]), (NAMED[1], NAMED[0])):
+                cl.append(('snapshot_holds_the_value_of_each_evaluated_dependency.%s_%s' % (nx, ny),
+                           Implies(And(P(x), dep(x, y), Cal(y), y != x, Not(C.dom(y))), And(DOM(g['snap'](x), y), GET(g['snap'](x), y) == Rj.get(y)))))
+            return cl
+        return inv
+
+    box = {}
+    loops = {id(while0): LoopSpec('call.While0', outer_inv, variant=lambda st: st.env[cal_name].pd.card, ghost_havoc=havoc_all),
+             id(for_in): LoopSpec('call.For0', for_inv('call.For0', ind_name), ghost_havoc=havoc_maps),
+             id(for_last): LoopSpec('call.For1', for_inv('call.For1', cal_name), ghost_havoc=havoc_maps)}
+    ex = Exec(mD, [th], inline=M['inline'], loops=loops, hooks=hooks, name='Dict.__call__')
+    box['ex'] = ex
+    st = State()
+    zero = lambda x: IntVal(0)
+    snap_i, kws_i = Function('snap_init', Val, Dct), Function('kws_init', Val, Dct)
+    st.ghost.update(t=IntVal(0), rnd=zero, cnt=zero, snap=(lambda x: snap_i(x)), kws=(lambda x: kws_i(x)))
+    outs = ex.run_function(st, 'Dict.__call__', [self_], {'**': kw})
+    inst = finish(ctx, ex, th, E)
+    ctx.record_function(mD, 'Dict.__call__', fdef, ex.stmts_executed)
+    wit = dict(K0=K0, D0=D0, K0_callable=Cal(K0), D0_callable=Cal(D0), K0_needs_D0=dep(K0, D0), D0_needs_K0=dep(D0, K0), K0_in_kw=KWD.dom(K0), D0_in_kw=KWD.dom(D0))
+    kwp = dict(witness=wit, replay=rp('call'))
+    pre = 'Dict.__call__.'
+    nret = nraise = 0
+    p, q, z = Consts('p q z', Val)
+    for out in outs:
+        hy = ex.facts + out.st.pc + inst
+        if out.kind == 'raise':
+            nraise += 1
+            C = out.st.env[cal_name].pd if out.st.env.get(cal_name) is not None and out.st.env[cal_name].kind == 'pdict' else None
+            if C is None:
+                ctx.post(pre + 'raises_only_inside_the_loop', hy, BoolVal(False), kind='safety', **kwp)
+                continue
+            independent = lambda x: And(C.dom(x), ForAll([z], Implies(MEM(ARGS(C.get(x)), z), Not(C.dom(z)))))
+            ctx.post(pre + 'raises_only_ValueError', hy, BoolVal(out.val == 'ValueError'), kind='safety', **kwp)
+            ctx.post(pre + 'raises_only_if_two_callables_remain', hy, Exists([p, q], And(C.dom(p), C.dom(q), p != q)), kind='safety', **kwp)
+            ctx.post(pre + 'raises_only_if_no_remaining_callable_is_independent', hy, Not(independent(K0)), kind='safety', **kwp)
+            ctx.cover(pre + 'circular_definitions_reach_the_raise', out.st.pc + [C.dom(K0), C.dom(D0), K0 != D0, dep(K0, D0), dep(D0, K0)] + th.inst(E))
+            continue
+        nret += 1
+        r = out.val
+        if r.kind != 'pdict' or not shape_ok(out.st):
+            raise OutOfSubset('Dict.__call__ returns %s' % r.kind)
+        R, g, C = r.pd, out.st.ghost, out.st.env[cal_name].pd
+        ctx.post(pre + 'result_is_type_self', hy, And(BoolVal(r.cls == 'Dict' and bool(r.f.get('own'))), r.tag == CLS), **kwp)
+        ctx.post(pre + 'exact_keys', hy, R.dom(K0) == Or(Dd.dom(K0), KWD.dom(K0)), **kwp)
+        ctx.post(pre + 'plain_keywords_and_old_items_untouched', hy, And(Implies(And(KWD.dom(K0), Not(CALLABLE(KWD.get(K0)))), R.get(K0) == KWD.get(K0)),
+                                                                         Implies(And(Not(KWD.dom(K0)), Dd.dom(K0)), R.get(K0) == Dd.get(K0))), **kwp)
+        ctx.post(pre + 'every_callable_is_evaluated_exactly_once', hy + [Cal(K0)], And(g['cnt'](K0) == 1, 0 <= g['rnd'](K0), g['rnd'](K0) <= g['t']), **kwp)
+        ctx.post(pre + 'value_is_apply_with_key_as_default', hy + [Cal(K0)], And(R.get(K0) == APPLY(KWD.get(K0), g['snap'](K0), g['kws'](K0)),
+                                                                                  DOM(g['kws'](K0), KEYSTR), GET(g['kws'](K0), KEYSTR) == K0), **kwp)
+        ctx.post(pre + 'dependencies_are_evaluated_strictly_earlier', hy + [Cal(K0), Cal(D0), dep(K0, D0), D0 != K0], g['rnd'](D0) < g['rnd'](K0), **kwp)
+        ctx.post(pre + 'each_function_saw_the_final_value_of_its_dependencies', hy + [Cal(K0), Cal(D0), dep(K0, D0), D0 != K0],
+                 And(DOM(g['snap'](K0), D0), GET(g['snap'](K0), D0) == R.get(D0)), **kwp)
+        cur = out.st.env.get('self')
+        ctx.post(pre + 'receiver_unchanged', hy, BoolVal(cur is not None and cur.kind == 'pdict' and cur.pd is Dd), kind='frame', **kwp)
+    if not nret or not nraise:
+        raise OutOfSubset('Dict.__call__: %d returning and %d raising paths' % (nret, nraise))
+    ctx.cover(pre + 'precondition.chain', [Cal(K0), Cal(D0), K0 != D0, dep(K0, D0), Not(dep(D0, K0)), Not(dep(K0, K0)), Not(dep(D0, D0))] + th.inst(E))
+    ctx.trust('Dict.__call__: "the result does not depend on keyword order" follows from the proved loop contract by the unique-fixpoint argument '
+              'in the docstring of contracts/C16.py; it is not a solver step')
+
+
 def relabel_contract(th):
     def h(ex, st, args, kwargs, star=None, dstar=None):
         ex.use('assumed contract:the module-level relabel(keys, *args, **relabels) returns a plain dict M (old key -> new key); its prefix / suffix / '
@@ -505,3 +745,4 @@ def build(ctx):
     ctx.guarded('ulist', lambda: ulist_section(ctx, M))
     for cls in ('dictattr', 'Dict'):
         dictattr_section(ctx, M, cls)
+    ctx.guarded('Dict.__call__', lambda: call_section(ctx, M))
